@@ -105,9 +105,14 @@ func VerifC12Watch() {
 	var tk []byte
 	tgChanged := false
 	for i := 0; i < N2; i++ {
-		if i == 1 && vnd.Param("TXNGET", 0) == 1 {
+		if i == 1 && vnd.Param("TXNGET", 0) >= 1 {
 			tk = symKey("tk", L)
-			_, tgW, _ = txn.Get(tk)
+			if vnd.Param("TXNGET", 0) == 2 {
+				// TXNGET=2: the channel of txn.Prefix(tk) ("closes when any objects matching the prefix are upserted or deleted")
+				_, tgW = txn.Prefix(tk)
+			} else {
+				_, tgW, _ = txn.Get(tk)
+			}
 			vnd.Assert(vnd.Not(vnd.IsClosed(tgW)), "C12.txnget.open-when-handed-out")
 			vnd.Cover("C12.txnget")
 		}
@@ -147,7 +152,11 @@ func VerifC12Watch() {
 		}
 		anyChange = vnd.Or(anyChange, changed)
 		if tgW != nil {
-			tgChanged = vnd.Or(tgChanged, vnd.And(changed, bytes.Equal(k, tk)))
+			if vnd.Param("TXNGET", 0) == 2 {
+				tgChanged = vnd.Or(tgChanged, vnd.And(changed, bytes.HasPrefix(k, tk)))
+			} else {
+				tgChanged = vnd.Or(tgChanged, vnd.And(changed, bytes.Equal(k, tk)))
+			}
 		}
 		getChanged = vnd.Or(getChanged, vnd.And(changed, bytes.Equal(k, gk)))
 		prefChanged = vnd.Or(prefChanged, vnd.And(changed, bytes.HasPrefix(k, pp)))
